@@ -185,7 +185,7 @@ def enum_specs(draw, prof=None):
     if cls == "small":
         n = draw(st.integers(1, 24))
     elif cls == "medium":
-        n = draw(st.integers(25, 80))
+        n = draw(st.integers(25, 140))
     elif cls == "large":
         n = draw(st.integers(200, 700))
     elif cls == "full8":
@@ -199,7 +199,11 @@ def enum_specs(draw, prof=None):
     elif shape == "holes":
         kwant = draw(st.integers(2, min(n, 4)))
     elif shape == "lots" and n >= 12:
-        kwant = draw(st.integers(10, min(n, 40)))       # code that switches strategy above some number of runs
+        # code that switches strategy above some number of runs (16, 32, 64, ...)
+        kwant = draw(st.integers(10, min(n, 40)))
+        big = [x for x in (63, 64, 65, 66, 100, 128, 129) if x <= n]
+        if big and chance(draw, 0.5):
+            kwant = draw(st.sampled_from(big))
     else:
         kwant = draw(st.integers(2, min(n, 9)))
     if kwant > 1:
